@@ -225,6 +225,7 @@ def run(rep, tier, seed):
     for i in range(nfam):
         probs += family(rng, force={0: "perm", 1: "sparse"}.get(i))
     nruns = 0
+    retained = []
     hist = dict(succeed_true=0, succeed_false=0, raised=0, nan_result=0, in_basin=0, far=0)
     for pr in probs:
         starts = []
@@ -244,7 +245,9 @@ def run(rep, tier, seed):
                     hist["in_basin" if sname == "in-basin" else "far"] += 1
                     case = dict(problem=pr.name, start=sname, y0=[float(x) for x in y0], tol=tol, solver=solname)
                     # with a Vars start (layout clause) on every other run
-                    use_vars = (nruns % 2 == 0)
+                    kind = int(rng.integers(0, 8))          # start object: Vars (0-3), float64 ndarray (4, 5), float32 (6), int64 (7)
+                    use_vars = kind < 4
+                    int_start = False
                     if use_vars:
                         a = Address()
                         if pr.n >= 2:
@@ -254,6 +257,13 @@ def run(rep, tier, seed):
                         start = Vars(a, y0.copy())
                     else:
                         start = y0.copy()
+                        # every fourth run: an ndarray start that is not float64 (float32 keeps the point to 1e-7, an
+                        # integer start is a rounded point: only the flag / layout clauses are judged for it)
+                        if kind == 6:
+                            start = y0.astype(np.float32)
+                        elif kind == 7:
+                            start = np.rint(y0).astype(np.int64)
+                            int_start = True
                     try:
                         sol = quiet(solver, pr.nae(), start, Opt(ite_tol=tol))
                     except Exception as ex:  # noqa
@@ -269,16 +279,17 @@ def run(rep, tier, seed):
                             fails.append((case, f"{solname}: named access of the result does not match the flat result"))
                     else:
                         yarr = np.asarray(y)
+                    retained.append((sol, yarr, np.array(yarr, dtype=float, copy=True), solname, case))
                     with warnings.catch_warnings():
                         warnings.simplefilter("ignore")
-                        r = maxabs(pr.F(yarr))
+                        r = maxabs(pr.F(np.asarray(yarr, dtype=float)))
                     truth = bool(r < tol)
                     hist["succeed_true" if sol.stats.succeed else "succeed_false"] += 1
                     if r != r:
                         hist["nan_result"] += 1
                     if bool(sol.stats.succeed) != truth:
                         fails.append((case, f"{solname}: succeed={sol.stats.succeed} but max|F(y)| = {r!r} at the returned point, tol = {tol!r}"))
-                    if sname == "in-basin" and pr.root is not None:
+                    if sname == "in-basin" and pr.root is not None and not int_start:
                         if not sol.stats.succeed:
                             fails.append((case, f"{solname}: did not converge from inside the basin (max|F| = {r!r})"))
                         else:
@@ -289,6 +300,12 @@ def run(rep, tier, seed):
                             if np.max(np.abs(yarr - pr.root)) > bound:
                                 fails.append((case, f"{solname}: returned point is {np.max(np.abs(yarr - pr.root)):.3g} from the root, "
                                                     f"allowed tol*cond = {bound:.3g}"))
+    # a solution once returned stays what it was: later calls of any solver must not write into it
+    for sol, yarr, snapshot, solname, case in retained:
+        now = np.asarray(sol.y.array if hasattr(sol.y, "array") else sol.y, dtype=float)
+        if now.shape != snapshot.shape or not np.array_equal(now, snapshot, equal_nan=True):
+            fails.append((case, f"{solname}: the point returned by this call was changed by a later solver call: {snapshot[:4]} -> {now[:4]}"))
+            break
     rep.cov["evaluations"] = len(lines) + nruns
     rep.cov["distinct_nontrivial"] = len({l for l in lines if len(l.split()) > 6}) + nruns
     rep.cov["rule"] = ("scripts: tolerance, max_it and a residual sequence over {tol, tol(1±2^-20), tol/2, tol/1024, 2tol, 1, 4, 256, 0, NaN, inf} "
